@@ -50,7 +50,9 @@ func (solarWeek *SolarWeek) GetIndex() int {
 	if offset < 0 {
 		offset += 7
 	}
-	return int(math.Ceil(float64(solarWeek.day+offset) / 7))
+	// 1582年10月只有21天（5日至14日不存在），用当月第几天而不是日期数字
+	day := SolarUtil.GetDaysInYear(solarWeek.year, solarWeek.month, solarWeek.day) - SolarUtil.GetDaysInYear(solarWeek.year, solarWeek.month, 1) + 1
+	return int(math.Ceil(float64(day+offset) / 7))
 }
 
 func (solarWeek *SolarWeek) GetIndexInYear() int {
